@@ -105,6 +105,9 @@ type API struct {
 	// FaultFn decides the fault for a call (called with the call index and the call key); nil = none.
 	FaultFn func(idx int, c *Call) string
 	stopped bool
+	// NoStickyStop: a "stop" answer of FaultFn fails only that call; FaultFn itself decides which later calls fail
+	// (used to cut parallel batches by call content instead of arrival order).
+	NoStickyStop bool
 	// ReverseLists returns lists in reverse name order (a thorough-tier deviation).
 	ReverseLists bool
 	// Hook is called before every pod create/delete with the call (C17 controlled scheduler); may block.
@@ -172,7 +175,7 @@ func (a *API) record(c *Call) string {
 	}
 	if a.FaultFn != nil {
 		c.Fault = a.FaultFn(idx, c)
-		if c.Fault == FaultStop {
+		if c.Fault == FaultStop && !a.NoStickyStop {
 			a.stopped = true
 		}
 	}
